@@ -143,6 +143,8 @@ def response_xml(r):
         out.append(status_xml(r.get('status')))
     for a in r.get('assertions', []):
         out.append(a)
+    if r.get('trailing_status'):
+        out.append(status_xml(r['trailing_status']))      # a second Status element after the assertions (schema-invalid on purpose)
     out.append('</samlp:Response>')
     return ''.join(out)
 
